@@ -240,6 +240,45 @@ def lifecycle_owner(run, prog, scan, rule: str, cq: str, start: str = "start", s
                               not any(x == ("const", None) for x in (c[2], c[3])) for c, _v, _, _ in p.conds)
                 if not guarded:
                     bad.append((fi, how, A, e))
+    # ... nor does the ending generation *decide* on them: what it reads there is the state of whoever is current by then
+    stale = []
+    for q, (fi, how) in sorted(deferred.items()):
+        if how != "coroutine":
+            continue
+        stores_of(q)
+        for p in cpaths.get(q, []):
+            for c, v, stmt, cfi in p.conds:
+                host = cfi if cfi is not None else fi
+                if stmt is None or not hasattr(host, "node") or not _termination_context(host.node, stmt):
+                    continue
+                reads = sorted({x[2] for x in subterms(c) if x[0] == "attr" and x[1] == me and x[2] in owned})
+                if not reads:
+                    continue
+                n += 1
+                if c[0] == "cmp" and c[1] in ("is", "is not", "==", "!=") and not any(x == ("const", None) for x in (c[2], c[3])):
+                    continue  # compares the current handle with its own
+                stale.append((fi, reads[0], c, stmt))
+    seen_s = set()
+    for fi, A, c, stmt in stale:
+        if (fi.qual, A) in seen_s:
+            continue
+        seen_s.add((fi.qual, A))
+        run.ob(rule, f"{fi.qual}:decides-on-generation-state[{A}]", False, loc(fi, stmt),
+               f"{fi.name} decides on {show(c)[:60]} while its task is being cancelled / ending; self.{A} belongs to {start}() / {stop}(): "
+               f"after a {stop}() / {start}() pair the ending run reads the state of the new one (and e.g. skips the StopOffer of the run that ended)")
+    # ... and a generation is begun by the owner of the object only: a method of the class that calls its own start()
+    # (from a notification, a callback, a handler) begins runs nobody asked for - with their whole announcement / find
+    # sequence - and the owner's stop() then ends only the last of them
+    selfstart = []
+    for cfi, _r, ce_ in scan.callers_of(sfi.qual):
+        if cfi.cls is not None and prog.is_subclass(cq, cfi.cls.qual) and cfi.name not in (start, "__init__") \
+                and ce_.recv == me:
+            selfstart.append((cfi, ce_))
+    for cfi, ce_ in selfstart[:1]:
+        run.ob(rule, f"{cfi.qual}:restarts-itself", False, loc(cfi, ce_.node),
+               f"{cfi.name} calls self.{start}(): a new run (task, announcement / find sequence) is begun from inside the object, "
+               f"not by its owner - more rounds are sent than one {start}() allows")
+    bad_any = bool(bad) or bool(stale) or bool(selfstart)
     seen = set()
     for fi, how, A, e in bad:
         key = (fi.qual, A)
@@ -251,7 +290,7 @@ def lifecycle_owner(run, prog, scan, rule: str, cq: str, start: str = "start", s
                f"{fi.name} (a {how} of {cq.split('.')[-1]}) assigns self.{A} = {show(e.value)[:40] if isinstance(e.value, tuple) else '?'} {where}; "
                f"{start}() and {stop}() own that attribute: after a {stop}() / {start}() pair the assignment lands in the new generation "
                f"(the next {stop}() then sees a stopped object / no task and cancels or withdraws nothing)")
-    if not bad:
+    if not bad_any:
         run.ob(rule, f"{cq}:generation-state-owned-by-{start}-{stop}", True, loc(sfi),
                f"{owned} are owned by {start}()/{stop}(); {len(deferred)} continuation(s) of the class "
                f"({', '.join(sorted(f.name for f, _ in deferred.values())) or '-'}) assign them at most the value both leave there "
